@@ -2,5 +2,5 @@
 (* bounded instances of XoBytes: the initial capacities are the pairs of CapA x CapB (cfg files cannot write tuples) *)
 EXTENDS XoBytes
 CONSTANTS CapA, CapB
-McCaps == CapA \X CapB
+McCaps == {c \in CapA \X CapB : c[1] <= c[2]}     \* (a,b) and (b,a) are mirror images
 =============================================================================
